@@ -632,7 +632,7 @@ func ruleResumeCursor(c *Ctx) {
 
 func init() {
 	register(&Rule{ID: "R9.emit-covers-state", Props: []string{"C09"}, Floor: 9,
-		Text: "the rewrite emits every component of the state it replaces, under exactly the guard that component has: in aofshrink, the option words appended to a command ('field' under !f.Value().IsZero() only, 'ex' under o.Expires() != 0 only, 'object'/'string' on the two edges of objIsSpatial(o.Geo()), 'setchan'/'sethook' on the two edges of hook.channel, 'meta' for every element of hook.Metas, 'ex' under !hook.expires.IsZero() only) carry no other condition, the object command reads ID, Fields, Expires and Geo of the object, and the hook command appends the hook's stored message arguments unconditionally",
+		Text: "the rewrite emits every component of the state it replaces, under exactly the guard that component has: in aofshrink, the option words appended to a command ('field' under !field.Value().IsZero() only, 'ex' under object.Expires() != 0 only, 'object'/'string' on the two edges of objIsSpatial(object.Geo()), 'setchan'/'sethook' on the two edges of hook.channel, 'meta' for every element of hook.Metas, 'ex' under !hook.expires.IsZero() only; guards compared with locals rendered by their type, not their name) carry no other condition on the object, field or hook, the object command reads ID, Fields, Expires and Geo of the object, and the hook command appends the hook's stored message arguments unconditionally",
 		Run:  ruleEmitCoversState})
 }
 
@@ -724,9 +724,9 @@ func ruleEmitCoversState(c *Ctx) {
 				if !subject(f.E) && f.Tag == nil {
 					continue
 				}
-				s := exprStr(f.E)
+				s := canonStr(info, f.E)
 				if f.Tag != nil {
-					s = exprStr(f.Tag) + "==" + s
+					s = canonStr(info, f.Tag) + "==" + s
 				}
 				if f.Neg {
 					s = "!(" + s + ")"
@@ -781,14 +781,14 @@ func ruleEmitCoversState(c *Ctx) {
 	}
 	wants := []want{
 		{"set", false, only()},
-		{"field", false, only("!(f.Value().IsZero())")},
-		{"ex", false, only("o.Expires() != 0")},
-		{"object", false, only("objIsSpatial(o.Geo())")},
-		{"string", false, only("!(objIsSpatial(o.Geo()))")},
-		{"setchan", true, only("hook.channel")},
-		{"sethook", true, only("!(hook.channel)")},
+		{"field", false, only("!(‹Field›.Value().IsZero())")},
+		{"ex", false, only("‹Object›.Expires() != 0")},
+		{"object", false, only("objIsSpatial(‹Object›.Geo())")},
+		{"string", false, only("!(objIsSpatial(‹Object›.Geo()))")},
+		{"setchan", true, only("‹Hook›.channel")},
+		{"sethook", true, only("!(‹Hook›.channel)")},
 		{"meta", true, only()},
-		{"ex", true, only("!(hook.expires.IsZero())")},
+		{"ex", true, only("!(‹Hook›.expires.IsZero())")},
 	}
 	for _, w := range wants {
 		key := "object/" + w.word
@@ -867,7 +867,7 @@ func ruleEmitCoversState(c *Ctx) {
 				}
 				extra := false
 				for _, f := range fg.DominatingFacts(fg.LocOf(call)) {
-					if s := exprStr(f.E); !(f.Neg && s == "hook == nil") {
+					if s := canonStr(info, f.E); !(f.Neg && s == "‹Hook› == nil") {
 						extra = true
 					}
 				}
